@@ -7,6 +7,11 @@ export GOFLAGS=-mod=mod GOPROXY=off GOSUMDB=off GOTOOLCHAIN=local
 export VERIF_SCRATCH="${VERIF_SCRATCH_BASE:-/dev/shm}/verif.$$"
 mkdir -p "$VERIF_SCRATCH"
 trap 'rm -rf "$VERIF_SCRATCH"' EXIT
+# VERIF_REPO=<dir>: check a scratch worktree (a candidate change) instead of /repo.
+if [ -n "${VERIF_REPO:-}" ] && [ "$VERIF_REPO" != "/repo" ]; then
+  sed "s|=> /repo|=> $VERIF_REPO|" go.mod > "$VERIF_SCRATCH/go.mod"; cp go.sum "$VERIF_SCRATCH/go.sum"
+  export GOFLAGS="-mod=mod -modfile=$VERIF_SCRATCH/go.mod"
+fi
 id="$1"; tier="${2:-quick}"
 if [ "$id" = "replay" ]; then
   path="$2"
